@@ -292,7 +292,7 @@ def run_shard(spec, acc):
     rng = gen.rng_for(spec["seed"], ID, spec["name"])
     quick = spec["tier"] == "quick"
     sources = [5, 6, 7]
-    for c in range(100 if quick else 1500):
+    for c in range(100 if quick else 600):
         pool = hist.Pool(dbx, rng, n_single=5, n_fast=4)
         cfg = make_config(rng)
         claims = {s: [hist.claim_name(rng.randrange(1 << 20), rng.choice([1851, 1855, 229, 137]))] for s in sources}
